@@ -1200,6 +1200,11 @@ class Interp:
         if isinstance(a, tuple) and isinstance(b, tuple) and a[0] in ('off', 'offc') and b[0] == a[0] and a[1] == b[1] and a[2] == b[2] \
                 and isinstance(a[3], int) and isinstance(b[3], int) and lo.delta == 0 and hi.delta == 0 and a[2] != 'c' and a[2] is not None:
             ra, rb = a[4], b[4]
+            if ra == rb and b[3] == a[3] + 1 and isinstance(a[2], tuple) and a[2] and a[2][0] in ('off', 'offc') and a[3] == 0:
+                # the part addressed is "the first part of element i" (its index is the element's START offset, not a loop index over [start, stop)):
+                # an element without parts (empty, not missing) has start == stop, and part `start` then belongs to the NEXT element
+                self.err('range', node, 'the first part of an element is read through the element\'s start offset without a loop over [start, stop): for an element without parts '
+                                        '(empty polygon / multi-part geometry) this is the first part of the next element')
             if ra == rb:
                 if b[3] != a[3] + 1:
                     self.err('fencepost', node, f'range [offsets[i{a[3]:+d}], offsets[i{b[3]:+d}]) is not the range of one part (expected [offsets[i], offsets[i + 1]))')
